@@ -42,6 +42,34 @@ static NREQ: AtomicU64 = AtomicU64::new(0); // requests seen inside the window
 static FAIL_NTH: AtomicI64 = AtomicI64::new(-1); // fail this one (0-based) ...
 static FAIL_ERRNO: AtomicI64 = AtomicI64::new(0); // ... with this errno
 static FAILED_REQ: AtomicI64 = AtomicI64::new(-1); // the request number that was failed
+static CASE_NO: AtomicU64 = AtomicU64::new(0); // odd while a case is being executed
+
+/// A call that never comes back is data: after `secs` inside one case the watchdog records it, kills the
+/// debuggee and ends the driver.
+fn watchdog(path: String, pid: i32, secs: u64) {
+    std::thread::spawn(move || {
+        let mut last = 0u64;
+        let mut since = std::time::Instant::now();
+        loop {
+            std::thread::sleep(std::time::Duration::from_millis(200));
+            let n = CASE_NO.load(Ordering::SeqCst);
+            if n != last {
+                last = n;
+                since = std::time::Instant::now();
+            } else if n % 2 == 1 && since.elapsed().as_secs() >= secs {
+                let state = probe::process_state(pid).unwrap_or_default();
+                let sys = std::fs::read_to_string(format!("/proc/{pid}/syscall")).unwrap_or_default();
+                if let Ok(mut f) = std::fs::OpenOptions::new().append(true).open(&path) {
+                    use std::io::Write;
+                    let _ = writeln!(f, "{}", json!({"meta": "hang", "secs": secs, "debuggee_state": state, "debuggee_syscall": sys.trim()}));
+                    let _ = writeln!(f, "{}", json!({"meta": "done"}));
+                }
+                unsafe { libc::kill(pid, libc::SIGKILL) };
+                std::process::exit(0);
+            }
+        }
+    });
+}
 
 type PtraceFn = unsafe extern "C" fn(libc::c_uint, libc::pid_t, *mut libc::c_void, *mut libc::c_void) -> libc::c_long;
 
@@ -104,7 +132,10 @@ impl Console {
     /// Returns (Ok(printed text) | Err(message), stage at which it failed)
     fn line(&self, dbg: &mut Debugger, line: &str) -> Result<String, (String, &'static str)> {
         self.buf.borrow_mut().clear();
-        let cmd = Command::parse(line).map_err(|e| (format!("{e}"), "parse"))?;
+        let cmd = match catch(|| Command::parse(line)) {
+            Ok(r) => r.map_err(|e| (format!("{e}"), "parse"))?,
+            Err(p) => return Err((p, "parse_panic")),
+        };
         let mut h = CommandHandler {
             yes_handler: Yes,
             complete_handler: NoComplete,
@@ -276,6 +307,17 @@ fn alive(pid: i32) -> bool {
     matches!(probe::process_state(pid).as_deref(), Some("t") | Some("S") | Some("R") | Some("D"))
 }
 
+/// The pipes are drained by background threads: give them time to deliver the program's last line.
+fn wait_output(o: &vharness::dbg::Output, last_prefix: &str) {
+    for _ in 0..100 {
+        let s = o.stdout_string();
+        if s.ends_with('\n') && s.lines().last().map(|l| l.starts_with(last_prefix)).unwrap_or(false) {
+            return;
+        }
+        std::thread::sleep(std::time::Duration::from_millis(50));
+    }
+}
+
 fn ui_init() {
     config::set(UIConfig { theme: Theme::None, tui_keymap: Default::default(), save_history: false });
 }
@@ -301,12 +343,10 @@ fn mode_call(cfg: &Value, out: &mut NdjsonOut) {
         "body" => dbg.set_breakpoint_at_fn("host_entry").map(|_| ()),
         "mid" => dbg.set_breakpoint_at_line(&src_name, cfg["lines"]["mid"].as_u64().unwrap()).map(|_| ()),
         "leaf" => dbg.set_breakpoint_at_line(&src_name, cfg["lines"]["leaf"].as_u64().unwrap()).map(|_| ()),
+        "callee" => dbg.set_breakpoint_at_fn("f2").map(|_| ()),
         _ => tool_error("unknown pos"),
     };
     r.unwrap_or_else(|e| tool_error(&format!("stop breakpoint: {e}")));
-    for f in cfg["extra_bps"].as_array().cloned().unwrap_or_default() {
-        dbg.set_breakpoint_at_fn(f.as_str().unwrap()).unwrap_or_else(|e| tool_error(&format!("extra breakpoint {f}: {e}")));
-    }
     let stop = dbg.start_debugee_with_reason().unwrap_or_else(|e| tool_error(&format!("start: {e}")));
     if probe::load_bias(pid, &elf) != BIAS0 {
         tool_error("unexpected load bias");
@@ -319,6 +359,17 @@ fn mode_call(cfg: &Value, out: &mut NdjsonOut) {
         if w != stop_pc {
             tool_error("stopped at another breakpoint first");
         }
+    }
+    {
+        let ga = stop_pc - BIAS0;
+        let want_fn = match pos { "entry" | "body" => "host_entry", "mid" => "host_mid", "leaf" => "leaf_rz", "fp" => "host_fp", _ => "f2" };
+        let (v, sz) = elf.symbols.get(want_fn).copied().unwrap_or((0, 0));
+        if !(v <= ga && ga < v + sz) {
+            tool_error(&format!("stopped at {ga:#x}, outside {want_fn}"));
+        }
+    }
+    for f in cfg["extra_bps"].as_array().cloned().unwrap_or_default() {
+        dbg.set_breakpoint_at_fn(f.as_str().unwrap()).unwrap_or_else(|e| tool_error(&format!("extra breakpoint {f}: {e}")));
     }
     if !cfg["keep_bp"].as_bool().unwrap_or(true) {
         dbg.remove_breakpoint(Address::Relocated(RelocatedAddress::from(stop_pc)))
@@ -337,6 +388,7 @@ fn mode_call(cfg: &Value, out: &mut NdjsonOut) {
         "word": s0.word, "patched": s0.patched, "bps": s0.bps, "log_len": s0.log_len, "known": known,
         "maps": s0.maps.len(), "func": dbg.ecx().location().pc.to_string()}));
     let console = Console::new();
+    watchdog(cfg["out_path"].as_str().unwrap_or("").to_string(), pid, cfg["hang_secs"].as_u64().unwrap_or(20));
     let heal = cfg["heal"].as_bool().unwrap_or(false);
     let fault = cfg.get("fault").cloned().unwrap_or(Value::Null);
     let mut lost = Value::Null;
@@ -353,11 +405,14 @@ fn mode_call(cfg: &Value, out: &mut NdjsonOut) {
         let route = c["route"].as_str().unwrap_or("console");
         NREQ.store(0, Ordering::SeqCst);
         FAILED_REQ.store(-1, Ordering::SeqCst);
-        if let Some(n) = fault["nth"].as_i64() {
+        if let (Some(n), true) = (fault["nth"].as_i64(), c["faulty"].as_bool().unwrap_or(false)) {
             FAIL_NTH.store(n, Ordering::SeqCst);
             FAIL_ERRNO.store(fault["errno"].as_i64().unwrap_or(libc::ESRCH as i64), Ordering::SeqCst);
         }
+        out.emit(&json!({"begin": c["id"]}));
+        CASE_NO.fetch_add(1, Ordering::SeqCst);
         WINDOW.store(1, Ordering::SeqCst);
+        let t_call = std::time::Instant::now();
         let res: Result<Result<String, (String, &'static str)>, String> = if route == "console" {
             let mut line = format!("call {name}");
             for a in &args {
@@ -378,15 +433,20 @@ fn mode_call(cfg: &Value, out: &mut NdjsonOut) {
             catch(|| dbg.call(name, &lits).map(|_| String::new()).map_err(|e| (format!("{e}"), "handle")))
         };
         WINDOW.store(0, Ordering::SeqCst);
+        let us_call = t_call.elapsed().as_micros() as u64;
+        CASE_NO.fetch_add(1, Ordering::SeqCst);
         FAIL_NTH.store(-1, Ordering::SeqCst);
         let nreq = NREQ.load(Ordering::SeqCst);
         let (ok, err, stage) = match &res {
+            Ok(Err((e, "parse_panic"))) => (Value::Null, e.clone(), "parse_panic"),
             Ok(Ok(_)) => (json!(true), String::new(), ""),
             Ok(Err((e, st))) => (json!(false), e.clone(), *st),
             Err(p) => (Value::Null, p.clone(), "panic"),
         };
+        let t_snap = std::time::Instant::now();
         let after = snap(&cx, &dbg, Some(s0.rsp));
-        let mut rec = json!({"id": c["id"], "ok": ok, "err": err, "stage": stage, "ptrace_requests": nreq,
+        let us_snap = t_snap.elapsed().as_micros() as u64;
+        let mut rec = json!({"id": c["id"], "ok": ok, "err": err, "stage": stage, "ptrace_requests": nreq, "us_call": us_call, "us_snap": us_snap,
             "failed_request": FAILED_REQ.load(Ordering::SeqCst)});
         match &after {
             Some(a) => {
@@ -403,7 +463,7 @@ fn mode_call(cfg: &Value, out: &mut NdjsonOut) {
             lost = json!(format!("debuggee lost after case {}", c["id"]));
             break;
         }
-        if ok.is_null() {
+        if ok.is_null() && stage != "parse_panic" {
             // a panic inside the debugger: its internal state is unknown, end of session
             lost = json!(format!("debugger panicked in case {}", c["id"]));
             break;
@@ -440,7 +500,7 @@ fn mode_call(cfg: &Value, out: &mut NdjsonOut) {
                 }
             }
         }
-        std::thread::sleep(std::time::Duration::from_millis(50));
+        wait_output(&output, "SUM ");
         out.emit(&json!({"meta": "finished", "stops": stops, "stdout": output.stdout_string(), "stderr": output.stderr_string()}));
     }
     out.emit(&json!({"meta": "done"}));
@@ -525,7 +585,7 @@ fn mode_dbg(cfg: &Value, out: &mut NdjsonOut) {
                 }
             }
         }
-        std::thread::sleep(std::time::Duration::from_millis(50));
+        wait_output(&output, "END ");
         out.emit(&json!({"meta": "finished", "stops": stops, "stdout": output.stdout_string()}));
     }
     out.emit(&json!({"meta": "done"}));
@@ -544,7 +604,8 @@ fn main() {
     }
     std::panic::set_hook(Box::new(|_| {}));
     ui_init();
-    let cfg = read_json(&a[2]);
+    let mut cfg = read_json(&a[2]);
+    cfg["out_path"] = json!(a[3]);
     let mut out = NdjsonOut::create(&a[3]);
     match a[1].as_str() {
         "call" => mode_call(&cfg, &mut out),
